@@ -526,6 +526,71 @@ fn source_rewrite_sub(ctx: &Ctx) -> SubReport {
     )
 }
 
+/// What happens to a source file between `with_file` and `build` (small and large sources: a builder may keep the bytes, or
+/// a handle and read again): whatever ends up in the archive, the recorded digest must be its digest.
+fn source_after_with_file_sub(ctx: &Ctx) -> SubReport {
+    use rpm::{FileOptions, PackageBuilder};
+    let env = Env::new(&ctx.repo, "c08a");
+    let sizes: Vec<usize> = if ctx.thorough() { vec![0, 16, 65_537, (1 << 20) + 1, (4 << 20) - 1, (4 << 20) + 1, (8 << 20) + 5, (64 << 20) + 3] } else { vec![16, 65_537, (4 << 20) + 1, (8 << 20) + 5] };
+    const ACTIONS: [&str; 7] = ["nothing", "rewritten in place with other bytes of the same length", "truncated to nothing", "extended by one byte", "shortened by one byte", "removed", "replaced by another file of the same name"];
+    let n = (sizes.len() * ACTIONS.len() * 2) as u64;
+    let acc = merge(vlib::par::par_fold(n, Acc::new, |i, acc| {
+        let two_files = i % 2 == 1;
+        let action = ACTIONS[(i / 2) as usize % ACTIONS.len()];
+        let size = sizes[(i / 2) as usize / ACTIONS.len()];
+        acc.evals += 1;
+        let case = || json!({"source_size": size, "between_with_file_and_build_the_source_is": action, "a_second_small_file_is_added_afterwards": two_files});
+        let path = env.dir().join(format!("after-{}", i));
+        let content: Vec<u8> = (0..size).map(|k| (k % 251) as u8).collect();
+        std::fs::write(&path, &content).unwrap_or_else(|e| crate::ctx::machinery(&format!("c08 after: {}", e)));
+        let b = PackageBuilder::new("after", "1", "MIT", "noarch", "s").compression(rpm::CompressionWithLevel::None).source_date(1_600_000_000u32);
+        let b = match catch(|| b.with_file(&path, FileOptions::new("/data/big"))) {
+            Ok(Ok(b)) => b,
+            _ => return acc.count("with_file refused (not judged)"),
+        };
+        use std::io::Write;
+        match action {
+            "nothing" => {}
+            "rewritten in place with other bytes of the same length" => std::fs::write(&path, vec![0xEEu8; size]).unwrap(),
+            "truncated to nothing" => std::fs::write(&path, b"").unwrap(),
+            "extended by one byte" => std::fs::OpenOptions::new().append(true).open(&path).unwrap().write_all(b"+").unwrap(),
+            "shortened by one byte" => std::fs::OpenOptions::new().write(true).open(&path).unwrap().set_len(size.saturating_sub(1) as u64).unwrap(),
+            "removed" => std::fs::remove_file(&path).unwrap(),
+            _ => {
+                std::fs::remove_file(&path).unwrap();
+                std::fs::write(&path, b"another file").unwrap();
+            }
+        }
+        let b = if two_files {
+            let p2 = env.dir().join(format!("after-{}-second", i));
+            std::fs::write(&p2, b"second").unwrap();
+            let r = catch(|| b.with_file(&p2, FileOptions::new("/data/second")));
+            let _ = std::fs::remove_file(&p2);
+            match r {
+                Ok(Ok(b)) => b,
+                _ => return acc.count("second with_file refused (not judged)"),
+            }
+        } else {
+            b
+        };
+        let built = catch(|| b.build().and_then(|p| { let mut o = vec![]; p.write(&mut o).map(|_| o) }));
+        let _ = std::fs::remove_file(&path);
+        let bytes = match built {
+            Ok(Ok(o)) => o,
+            Ok(Err(e)) => return acc.count(&format!("build refused: {}", e).chars().take(60).collect::<String>()),
+            Err(p) => return acc.viol(panic_violation("source-after-with_file", &p, case()).rank(i)),
+        };
+        if oracle_true_digests_built("source-after-with_file", &bytes, i, &case, acc) {
+            acc.nontrivial += 1;
+            acc.count("built; digests true");
+        }
+        if i % 7 == 0 {
+            acc.sample(i, case);
+        }
+    }));
+    SubReport::new("source-after-with_file", "A", &format!("sources of {:?} bytes × what happens to the source between with_file and build ∈ {:?} × {{alone, followed by a second with_file}}: if a package is built, every recorded digest is the digest of what the package holds (an error is not judged)", sizes, ACTIONS), acc)
+}
+
 /// Entries of every kind built from sources that do have content, and signing an object whose recorded header digest is stale.
 fn typed_and_stale_sub(ctx: &Ctx) -> SubReport {
     let env = Env::new(&ctx.repo, "c08t");
@@ -644,6 +709,7 @@ pub fn run(ctx: &Ctx) -> i32 {
     let s_ts = typed_and_stale_sub(ctx);
     let s_sign = signers_sub(ctx);
     let s_rw = source_rewrite_sub(ctx);
+    let s_aw = source_after_with_file_sub(ctx);
     let s2 = crate::corpus::run_corpus(ctx, "corpus", "oracle: header SHA-256, payload digest, alternate (uncompressed) payload digest and per-file digests recomputed after independent decompression", &|sub, it, rank, acc| {
         if oracle_true_digests_built(sub, &it.bytes, rank, &|| it.desc.clone(), acc) {
             acc.nontrivial += 1;
@@ -684,14 +750,14 @@ pub fn run(ctx: &Ctx) -> i32 {
         }
     }));
     let s3 = SubReport::new("large-files", "A", &format!("{} builds with one file of 200 KB / 1 MiB (thorough: 2 and 8 MiB), compressible and incompressible, with every compressor incl. the default zstd-19 — sizes at which the encoders accept only part of a buffer; same four digest oracles", big.len()), b);
-    for s in [&s1, &s2, &s3, &s_sign, &s_rw, &s_ts] {
+    for s in [&s1, &s2, &s3, &s_sign, &s_rw, &s_aw, &s_ts] {
         if s.acc.nontrivial == 0 {
             crate::ctx::machinery(&format!("sub-check {} judged nothing: vacuous", s.name));
         }
     }
     ctx.finish(
         "fault_enumeration",
-        vec![s1, s2, s3, s_sign, s_rw, s_ts],
+        vec![s1, s2, s3, s_sign, s_rw, s_aw, s_ts],
         &[
             "the decompressors (flate2, zstd, liblzma) and RustCrypto sha2 are the crates the library uses itself; the cpio reader and header decoder are the harness's own",
             "file sizes beyond 1 MiB (quick) / 8 MiB (thorough) are not covered",
